@@ -1,6 +1,7 @@
 import Nstd.Rc.Lemmas
 import Nstd.Rc.Total
 import Nstd.Rc.Stale
+import Nstd.Rc.Frame
 /-
   Property C09: shared payloads are released exactly once, after their last handle.
 
@@ -256,16 +257,67 @@ theorem st_write_sole {n tid : Nat} {ops : List ApiOp} {s s1 s2 : St} {acts : Li
     embedded `next` handles; for those see the OPEN note) -/
 theorem apiRun_total_partial {n : Nat} (ops : List ApiOp) (hn : nSlots ≤ n)
     (hops : ∀ op, op ∈ ops → flatOp op = true ∧ idxOk op) : ∃ s, apiRun (init n) 0 ops = some s := by
-  obtain ⟨s, h, _⟩ := apiRun_total_aux (tid := 0) ops (conc_init n) hn (by decide) hops
+  obtain ⟨s, h, _⟩ := apiRun_total_aux (tid := 0) (mine := mineAll) ops (conc_init n) hn (by decide) (by decide) (by decide)
+    (fun op ho => ⟨(hops op ho).1, (hops op ho).2, idxMine_all op (hops op ho).2⟩)
   exact ⟨s, h⟩
 
-/-- one call, any thread: if the thread owns all slots, is idle and its two scratch slots are empty
-    (`Conc s tid (A0 tid)`, which also contains the invariant), the call succeeds and re-establishes this -/
-theorem apiStep_total_partial {s : St} {tid : Nat} {op : ApiOp} (hc : Conc s tid (A0 tid)) (hn : nSlots ≤ s.n)
-    (htid : tid < nThreads) (hf : flatOp op = true) (hi : idxOk op) :
-    ∃ s', apiStep s tid op = some s' ∧ Conc s' tid (A0 tid) :=
-  let ⟨s', h, hc', _⟩ := apiStep_total hc hn htid hf hi
+/-- one call of one thread in ANY reachable situation of the interleaved system: the thread owns the slots
+    `mine` (its variables and its two scratch slots, all top-level), is idle and its scratch slots are empty
+    (`Conc s tid (A0 tid mine)`, which also contains the invariant); run without interruption the call succeeds
+    and re-establishes this.  (Other threads may own all other slots and be in the middle of their calls.) -/
+theorem apiStep_total_partial {s : St} {tid : Nat} {op : ApiOp} {mine : Nat → Bool} (hc : Conc s tid (A0 tid mine))
+    (hn : nSlots ≤ s.n) (htid : tid < nThreads) (hf : flatOp op = true) (hi : idxOk op) (hmi : idxMine mine op)
+    (hmU : mine (tmpU tid) = true) (hmT : mine (tmpT tid) = true) :
+    ∃ s', apiStep s tid op = some s' ∧ Conc s' tid (A0 tid mine) :=
+  let ⟨s', h, hc', _⟩ := apiStep_total hc hn htid hf hi hmi hmU hmT
   ⟨s', h, hc'⟩
+
+/-! ### enabledness under interleaving: every thread with a pending call has an enabled step
+    (`PlanTo s tid acts A'`: the remaining step list `acts` of thread `tid` passes the abstract interpreter from the
+    thread's view `Conc` of its own slots; see Frame.lean) -/
+
+/-- frame: a step of another thread changes nothing a thread's guards depend on (its pc, the owner and the
+    content of its own top-level slots, n) -/
+theorem mt_frame {s s' : St} {tid tid2 : Nat} {A : Abs} {a : Act} (hc : Conc s tid A)
+    (hem : ∀ x, x ∈ A.empty → A.mine x = true) (hs : astep s tid2 a = some s') (hne : tid2 ≠ tid) :
+    Conc s' tid A ∧ s'.n = s.n := conc_frame hc hem hs hne
+
+/-- the remaining step list of a call stays executable whatever the other threads do in between … -/
+theorem mt_plan_stable {s s' : St} {tid tid2 : Nat} {acts : List Act} {a : Act} {A' : Abs} (h : PlanTo s tid acts A')
+    (hs : astep s tid2 a = some s') (hne : tid2 ≠ tid) : PlanTo s' tid acts A' := planTo_other h hs hne
+
+/-- … and its next step is enabled whenever the scheduler picks the thread (never stuck, never rejected) -/
+theorem mt_step_enabled {s : St} {tid : Nat} {a : Act} {r : List Act} {A' : Abs} (h : PlanTo s tid (a :: r) A') :
+    ∃ s', astep s tid a = some s' ∧ PlanTo s' tid r A' := planTo_progress h
+
+/-- a thread that is idle with empty scratch slots can start any String / Variant / Xml::Variant call on its
+    own variables: the `pre` list is such a plan … -/
+theorem mt_call_enabled_pre {s : St} {tid : Nat} {op : ApiOp} {mine : Nat → Bool} (hc : Conc s tid (A0 tid mine))
+    (hn : nSlots ≤ s.n) (htid : tid < nThreads) (hf : flatOp op = true) (hi : idxOk op) (hmi : idxMine mine op)
+    (hmU : mine (tmpU tid) = true) (hmT : mine (tmpT tid) = true) :
+    ∃ A1, PlanTo s tid (pre s tid op) A1 ∧ okMid s.n tid op (some A1) := mt_call_pre hc hn htid hf hi hmi hmU hmT
+
+/-- … when it is finished (in whatever state the interleaving has led to) the `post` list decided there is a
+    plan that ends idle with empty scratch slots … -/
+theorem mt_call_enabled_post {s1 : St} {tid : Nat} {op : ApiOp} {A1 : Abs} {n : Nat} (hdone : PlanTo s1 tid [] A1)
+    (hn : s1.n = n) (ok : okMid n tid op (some A1)) :
+    ∃ A2, PlanTo s1 tid (post s1 tid op) A2 ∧ A2.good tid ∧ A2.mine = A1.mine := mt_call_post hdone hn ok
+
+/-- … and after it the thread is ready for its next call: the three statements chain over whole programs of
+    all threads, so the interleavings the correspondence runs are accepted step by step (for the flat calls) -/
+theorem mt_call_enabled_done {s2 : St} {tid : Nat} {A2 : Abs} {mine : Nat → Bool} (hdone : PlanTo s2 tid [] A2)
+    (hg : A2.good tid) (hm : A2.mine = mine) : Conc s2 tid (A0 tid mine) := mt_call_done hdone hg hm
+
+/-- quiescent states of the interleaved system leak nothing: when no thread is inside a call every live block has
+    a handle -/
+theorem mt_quiescent_no_leak {n : Nat} {s : St} (h : Reach n s) (hq : ∀ t, s.pc t = .idle) (b : Nat) (blk : Block)
+    (hb : s.heap b = some blk) : 0 < handles s b := by
+  have inv := inv_reach h
+  have hc := inv.cnt b blk hb
+  by_cases z : blk.ref = 0
+  · obtain ⟨t, hf⟩ := inv.zero b blk hb z
+    rw [hq t] at hf; cases hf
+  · omega
 
 /-
   OPEN: `apiRun_total` for the RefCount::Ptr calls pNew / pCopy / pAssign / pClear / pLink / pNext / pNextOf
